@@ -89,7 +89,7 @@ CHECKS = {
         category='other',
         text='(a) CrossHair contracts over the real Step.__dict_to_list (symbolic scalar-or-list values, lists up to 4/6); (c) the real controller constructor executed with symbolic integer control orders of 2..4 '
              'convergence controllers: every ordering path proved ascending (SMT), the callbacks REALLY invoked during a short run (logged by the harness controllers) are proved ascending round by round as well, instantiated once, user parameters override defaults, coverage certified; (b,d) rejection / frozen-attribute clauses are a finite table of '
-             'single-fault perturbations (unknown names include near misses of the valid ones: suffix / case / blank variants), list-valued transfer entries on 2..4 levels, each per-level fault placed on every non-empty subset of 2 and 3 levels through list-valued entries, and the status containers of convergence controllers (each rejects the other containers' names), executed concretely as side conditions (no solver).',
+             'single-fault perturbations (unknown names include near misses of the valid ones: suffix / case / blank variants), list-valued transfer entries on 2..4 levels, each per-level fault placed on every non-empty subset of 2 and 3 levels through list-valued entries, and the status containers of convergence controllers (each rejects the names of the other containers), executed concretely as side conditions (no solver).',
         note='Trusted: CrossHair, z3. Description keys and attribute names are fixed lists. Outside: the full grammar of valid descriptions.',
         design='4/C20', technique='CrossHair contracts + symbolic execution of the controller constructor (z3); concrete side conditions for the finite rejection table',
     ),
